@@ -61,7 +61,8 @@ From CSS Require ClassDB.Model ClassDB.Proofs Searcher.Model Searcher.Contracts 
   RuleDB.AddProofs RuleDB.AddHist RuleDB.SearchHist Props.C04
   Spec.FindRule Spec.FindRuleProofs Spec.FindRuleSearch Spec.FindRuleRepair Spec.Grouping Spec.GroupingWf Spec.GroupingFacts Spec.GroupingProofs
   Spec.GroupingInit Spec.GroupingProd Spec.GroupingProdLink.
-From CSS Require Spec.GroupingProdObj.
+From CSS Require Spec.GroupingProdObj Spec.GroupingPumps Spec.GroupingPumpsProofs Spec.GroupingRun Spec.GroupingDesc Spec.GroupingDescProofs.
+From CSS Require Searcher.Deciders.
 Import ListNotations.
 
 (* AUDIT: the find_path contract used to be asked for EVERY pair of labels (forall l t); it is
@@ -348,6 +349,42 @@ Example C02_search_find_rule_total_entries :
   let s := run_search C04.sx_table 0 20 false true C04.ex_ans 0 C04.sx_ps in
   rstore s = [(2, []); (0, [2])] /\ estore s = [(0, [1]); (3, [4])] /\ In (EvEdge true 3 4) (trace s).
 Proof. cbv zeta. split; [|split]; vm_compute; auto 20. Qed.
+
+(* THE SAME with every table hypothesis replaced by ONE boolean the extracted run_c02 evaluates on the table of every
+   table-universe search whose rules() it is compared on (Searcher/Deciders.v find_rule_hyps_b = pe_contractb &&
+   sym_contractb && sym_unaryb && items_plainb && cap_okb && rev_okb; its value is printed as the second bit of output
+   field 6 of run_c02 - there conjoined with packets_inb of the packets sent, none in C02 - and compared with the
+   harness's Python predicates on every such case).  A case where it is false is a case this theorem says nothing
+   about.  items_plainb is sufficient, not necessary, for twoway_faithful; the other conjuncts are exact. *)
+Theorem C02_search_find_rule_total_decided : forall (T : table) (cap : Z -> bool) (pack : list Z),
+  Searcher.Deciders.find_rule_hyps_b T pack cap = true ->
+  forall F dl ev ans start ps, packets_inb pack ps = true ->
+  let s := run_search T 0 F dl ev ans start ps in
+  let d := cdb s in
+  exists a, add_hist T a /\ b_cdb dstore a = d /\ d_keys (b_r dstore a) = rstore s /\ d_keys (b_e dstore a) = estore s /\
+  let fr := find_rule T cap (dict_lookup (b_r dstore a)) (dict_lookup (b_e dstore a)) d in
+  (forall p cs, In (p, cs) (rstore s) ->
+     exists f, fr p cs = (d, inl f) /\ form_key T d f = Some (p, cs)) /\
+  (forall tw x y, In (EvEdge tw x y) (trace s) ->
+     ((forall C, label_of Z.eqb (fun c : Z => c) d C = Some y -> oracle T C = false) ->
+      exists f, fr x [y] = (d, inl f) /\ form_key T d f = Some (x, [y])) /\
+     (tw = true -> (forall C, label_of Z.eqb (fun c : Z => c) d C = Some x -> oracle T C = false) ->
+      exists f', fr y [x] = (d, inl f') /\ form_key T d f' = Some (y, [x]))) /\
+  (forall p cs, In (p, cs) (estore s) ->
+     exists c, cs = [c] /\
+     ((forall C, label_of Z.eqb (fun c : Z => c) d C = Some c -> oracle T C = false) ->
+      exists f, fr p [c] = (d, inl f) /\ form_key T d f = Some (p, [c])) /\
+     ((forall C, label_of Z.eqb (fun c : Z => c) d C = Some p -> oracle T C = false) ->
+      exists f', fr c [p] = (d, inl f') /\ form_key T d f' = Some (c, [p]))).
+Proof.
+  intros T cap pack H F dl ev ans start ps Hps.
+  destruct (Searcher.Deciders.find_rule_hyps_sound T pack cap H) as (A & B & C & D & E & G).
+  exact (C02_search_find_rule_total T cap pack A B C D E G F dl ev ans start ps (proj1 (packets_inb_spec pack ps) Hps)).
+Qed.
+(* satisfiable: C04's sx_table (a symmetry entry on an EMPTY class) *)
+Example C02_decider_true_somewhere :
+  Searcher.Deciders.find_rule_hyps_b C04.sx_table C04.sx_pack (fun _ => true) = true /\ packets_inb C04.sx_pack C04.sx_ps = true.
+Proof. split; reflexivity. Qed.
 
 (* exactly when it fails (any stores): see outcomes_spec in Spec/FindRuleProofs.v - ValueError iff the key is in
    neither store in either direction; RuntimeError / class-database errors only when a lookup raises them; the
@@ -652,6 +689,153 @@ Example C02_shifts_premise_matters :
   shifts_okb (ungroup (rules_dict [R 0 [1] false [] 0; R 1 [0] false [] 1])) = false /\
   R1 (rules_dict [R 0 [1] false [] 0; R 1 [0] false [] 1]) = [mkkey 0 []; mkkey 1 []].
 Proof. vm_compute. split; reflexivity. Qed.
+
+(* ---------------------------------------------------------------- the PROVED productivity verdict on the object
+   Spec/GroupingPumps.v: pumpsb ks c = the answer of is_pumping(c) of the table-method model (Forest/Model.v run,
+   with the fuel proved sufficient: run_total) on a fresh table fed with ks.  run_spec prints, for every real
+   rule set, pumpsb on R1 of the finished object and on R0 of the ungrouped rules, for the root (field 9) and
+   for every class with a key (fields 10, 11) - C02_run_spec_prints_the_verdicts; the check REQUIRES these bits
+   to be 1 wherever a productive rule set is owed (harness/props/c02.py), and compares them with the independent
+   Python naive_lfp everywhere. *)
+Import Spec.GroupingPumps Spec.GroupingPumpsProofs.
+
+(* the verdict is a decision procedure for `pumps` (no hypothesis: for ANY key list and class) *)
+Theorem C02_object_root_pumps_decided : forall d0 d1 root,
+  (pumpsb (R1 d1) root = true <-> pumps (R1 d1) root) /\
+  (pumpsb (R0 d0 d1) root = true <-> pumps (R0 d0 d1) root).
+Proof. intros. split; apply pumpsb_spec. Qed.
+
+Theorem C02_pumps_decided : forall ks c, pumpsb ks c = true <-> pumps ks c.
+Proof. exact pumpsb_spec. Qed.
+
+(* "every class in it": the all-classes verdict (all bits of field 10 / 11 are 1) *)
+Theorem C02_object_all_classes_pump_decided : forall ks,
+  all_pumpb ks = true <-> forall k, In k ks -> pumps ks (parent k).
+Proof. exact all_pumpb_spec. Qed.
+
+(* combined with C02_grouping_preserves_productivity (through C02_object_keys_pump_iff): the four bits run_spec
+   prints and ONE positive verdict give pumps (R1 object) root AND pumps (R0 ungrouped) root - the `pumps keys c`
+   hypothesis of C01_spec_correct, for the keys the object declares *)
+Theorem C02_object_root_pumps : forall is_empty root rules s,
+  let d0 := ungroup (rules_dict rules) in
+  wf_inputb is_empty root d0 = true -> shifts_okb d0 = true ->
+  spec_init is_empty root rules true = XOk s ->
+  same_dictb is_empty root rules true (sp_rules s) = true ->
+  (pumpsb (R1 (sp_rules s)) root = true \/ pumpsb (R0 d0 (sp_rules s)) root = true) ->
+  pumps (R1 (sp_rules s)) root /\ pumps (R0 d0 (sp_rules s)) root.
+Proof. exact object_root_pumps. Qed.
+
+(* under the premises of the grouping theorem the two verdicts cannot differ, for the root and for every class
+   with a rule in the object (the check compares fields 10 and 11 accordingly) *)
+Theorem C02_object_verdicts_agree : forall is_empty root rules s,
+  let d0 := ungroup (rules_dict rules) in
+  wf_inputb is_empty root d0 = true -> shifts_okb d0 = true ->
+  spec_init is_empty root rules true = XOk s ->
+  same_dictb is_empty root rules true (sp_rules s) = true ->
+  pumpsb (R1 (sp_rules s)) root = pumpsb (R0 d0 (sp_rules s)) root /\
+  forall c g, In (c, g) (sp_rules s) -> pumpsb (R1 (sp_rules s)) c = pumpsb (R0 d0 (sp_rules s)) c.
+Proof. exact object_verdicts_agree. Qed.
+
+Theorem C02_object_all_classes_pump : forall is_empty root rules s,
+  let d0 := ungroup (rules_dict rules) in
+  wf_inputb is_empty root d0 = true -> shifts_okb d0 = true ->
+  spec_init is_empty root rules true = XOk s ->
+  same_dictb is_empty root rules true (sp_rules s) = true ->
+  all_pumpb (R1 (sp_rules s)) = true ->
+  forall c g, In (c, g) (sp_rules s) -> pumps (R1 (sp_rules s)) c /\ pumps (R0 d0 (sp_rules s)) c.
+Proof. exact object_all_classes_pump. Qed.
+
+(* what the extracted run_spec prints (category (i): the very function the harness runs) *)
+Theorem C02_run_spec_prints_the_verdicts : forall (a : sx) s,
+  let root := sx_nat (sx_nth a 0) in
+  let ge := sx_bool (sx_nth a 1) in
+  let is_empty := fun c => mem c (sx_nats (sx_nth a 2)) in
+  let rules := map Spec.GroupingRun.dec_grule (sx_list (sx_nth a 3)) in
+  let d0 := ungroup (rules_dict rules) in
+  sx_list a <> [] ->
+  spec_init is_empty root rules ge = XOk s ->
+  sx_nth (Spec.GroupingRun.run_spec a) 6 = L (map Spec.GroupingRun.enc_fkey (R1 (sp_rules s))) /\
+  sx_nth (Spec.GroupingRun.run_spec a) 7 = L (map Spec.GroupingRun.enc_fkey (R0 d0 (sp_rules s))) /\
+  sx_nth (Spec.GroupingRun.run_spec a) 9 =
+    L [of_bool (pumpsb (R1 (sp_rules s)) root); of_bool (pumpsb (R0 d0 (sp_rules s)) root)] /\
+  sx_nth (Spec.GroupingRun.run_spec a) 10 =
+    L (map (fun k => L [of_nat (parent k); of_bool (pumpsb (R1 (sp_rules s)) (parent k))]) (R1 (sp_rules s))) /\
+  sx_nth (Spec.GroupingRun.run_spec a) 11 =
+    L (map (fun k => L [of_nat (parent k); of_bool (pumpsb (R0 d0 (sp_rules s)) (parent k))]) (R0 d0 (sp_rules s))).
+Proof. exact run_spec_verdicts. Qed.
+
+(* non-vacuity on the example with a path of shifts 1, -1, 2: the verdicts are computed, and the combination
+   theorem is applied *)
+Example C02_object_root_pumps_applied :
+  exists s, spec_init ex_empty 0 pr_rules true = XOk s /\
+    pumpsb (R1 (sp_rules s)) 0 = true /\ pumpsb (R0 pr_d0 (sp_rules s)) 0 = true /\
+    all_pumpb (R1 (sp_rules s)) = true /\
+    pumps (R1 (sp_rules s)) 0 /\ pumps (R0 pr_d0 (sp_rules s)) 0.
+Proof.
+  eexists. split; [vm_compute; reflexivity|]. split; [vm_compute; reflexivity|].
+  split; [vm_compute; reflexivity|]. split; [vm_compute; reflexivity|].
+  apply (C02_object_root_pumps ex_empty 0 pr_rules _
+           ltac:(vm_compute; reflexivity) ltac:(vm_compute; reflexivity) ltac:(vm_compute; reflexivity)
+           ltac:(vm_compute; reflexivity)).
+  left. vm_compute. reflexivity.
+Qed.
+(* and a rule set whose root does NOT pump: 0 -> (0 with shift 0); both verdicts are false *)
+Example C02_object_root_does_not_pump :
+  pumpsb (R1 (rules_dict [R 0 [0] false [0]%Z 0])) 0 = false /\ ~ pumps (R1 (rules_dict [R 0 [0] false [0]%Z 0])) 0.
+Proof.
+  split; [vm_compute; reflexivity|]. intros P. apply C02_pumps_decided in P. vm_compute in P. discriminate.
+Qed.
+
+(* ---------------------------------------------------------------- C02's object -> the descriptor list C01 evaluates
+   Spec/GroupingDesc.v descs_of : (tag -> constructor description) -> (tag -> path step) -> Grouping.dict -> list cdesc.
+   The forest keys DECLARED by the descriptors of the classes of the dictionary are exactly R1 of the dictionary:
+   C02's proved verdict is about the keys of the descriptor list C01's theorems evaluate. *)
+Theorem C02_descriptors_declare_R1 : forall info sinfo (d : dict),
+  NoDup (map fst d) -> (forall c g, In (c, g) d -> parent (gkey g) = c) ->
+  forall k, In k (R1 d) ->
+  exists dd, nth_error (Spec.GroupingDesc.descs_of info sinfo d) (parent k) = Some dd /\
+             Spec.CountRun.c_deps dd = Forest.Spec.kids k.
+Proof. exact Spec.GroupingDescProofs.descs_declare_R1. Qed.
+
+Theorem C02_descriptors_declare_only_R1 : forall info sinfo (d : dict),
+  (forall c g, In (c, g) d -> parent (gkey g) = c) ->
+  forall c dd, nth_error (Spec.GroupingDesc.descs_of info sinfo d) c = Some dd ->
+  (exists g, dget c d = Some g /\ dd = Spec.GroupingDesc.desc_of info sinfo g /\
+             In (mkkey c (Spec.CountRun.c_deps dd)) (R1 d)) \/
+  (dget c d = None /\ dd = Spec.GroupingDesc.empty_desc).
+Proof. exact Spec.GroupingDescProofs.descs_only_R1. Qed.
+
+(* C02 -> C01, PARTIAL: the four bits + a positive verdict + C01's per-descriptor contracts give the true counts
+   of the root from the descriptor list of the object.  Missing: that harness/props/c01.py describe() builds THIS
+   list from the real object (trusted Python, other class numbering, shift 0 written for a path where R1 has the
+   sum of its members' shifts), that run_c01 is ever fed with it, and the contracts themselves
+   (Spec/GroupingDescProofs.v). *)
+Theorem C02_object_counts_partial :
+  forall T npar vpos kpos, Spec.AdapterSound.T_ok T npar -> (forall l m, Count.TermsPolyOrder.canon (T l m)) ->
+  forall info sinfo is_empty root rules s,
+  let d0 := ungroup (rules_dict rules) in
+  wf_inputb is_empty root d0 = true -> shifts_okb d0 = true ->
+  spec_init is_empty root rules true = XOk s ->
+  same_dictb is_empty root rules true (sp_rules s) = true ->
+  pumpsb (R1 (sp_rules s)) root = true ->
+  let ds := Spec.GroupingDesc.descs_of info sinfo (sp_rules s) in
+  (forall c d, nth_error ds c = Some d -> Spec.Adapter.deps_shape d) ->
+  (forall c d, nth_error ds c = Some d -> forall Hz, Spec.AdapterSound.rule_contract T npar vpos kpos Hz c d) ->
+  forall n, (0 <= n)%Z ->
+  exists f0, forall f, (f0 <= f)%nat ->
+    Spec.Eval.eval Count.Terms.terms [] (Spec.AdapterGenuine.spec_ofN ds) f root n = T root n.
+Proof. exact Spec.GroupingDescProofs.object_counts_partial. Qed.
+
+(* the descriptor list of the example object: classes 0, 1, 4, 5, 9 get the descriptors of their entries (the path
+   of class 1 declares (4, 1 + -1 + 2)), the hidden classes 2, 3 and the non-classes 6..8 the filler *)
+Example C02_descriptors_example :
+  map Spec.CountRun.c_deps (Spec.GroupingDesc.descs_of (fun _ => Spec.GroupingDesc.empty_desc)
+                              (fun _ => Count.ConstructorsRun.dec_step (L [])) pr_d1) =
+  [[(1%nat, 1); (5%nat, 0); (9%nat, 0)]; [(4%nat, 2)]; []; []; [(0%nat, 0); (5%nat, 1)]; []; []; []; []; []]%Z /\
+  map (fun k => (parent k, Forest.Spec.kids k)) (R1 pr_d1) =
+  [(0%nat, [(1%nat, 1); (5%nat, 0); (9%nat, 0)]); (1%nat, [(4%nat, 2)]); (4%nat, [(0%nat, 0); (5%nat, 1)]);
+   (5%nat, []); (9%nat, [])]%Z.
+Proof. split; vm_compute; reflexivity. Qed.
 End GR.
 
 (* ====================================================================== the finding fixed by /repo 398db71, in the models *)
@@ -708,6 +892,7 @@ Print Assumptions C02_rules_from_table_all.
 Print Assumptions C02_find_rule_total_generic.
 Print Assumptions C02_find_rule_total.
 Print Assumptions C02_search_find_rule_total.
+Print Assumptions C02_search_find_rule_total_decided.
 Print Assumptions C02_find_rule_outcomes.
 Print Assumptions C02_find_rule_forget_foreign_parent_refuted.
 Print Assumptions C02_equivalences_handed_out_unary.
@@ -723,6 +908,16 @@ Print Assumptions C02_enforce_labels_partial.
 Print Assumptions C02_grouping_preserves_productivity.
 Print Assumptions C02_shifts_decided.
 Print Assumptions C02_object_keys_pump_iff.
+Print Assumptions C02_object_root_pumps_decided.
+Print Assumptions C02_pumps_decided.
+Print Assumptions C02_object_all_classes_pump_decided.
+Print Assumptions C02_object_root_pumps.
+Print Assumptions C02_object_verdicts_agree.
+Print Assumptions C02_object_all_classes_pump.
+Print Assumptions C02_run_spec_prints_the_verdicts.
+Print Assumptions C02_descriptors_declare_R1.
+Print Assumptions C02_descriptors_declare_only_R1.
+Print Assumptions C02_object_counts_partial.
 Print Assumptions C02_wf_decided.
 Print Assumptions C02_hidden_on_two_paths.
 Print Assumptions C02_extractor_hands_out_nonunary_equivalence_refuted.
